@@ -48,6 +48,14 @@ class LedgerMonitor(hist.Monitor):
             self.ledger[name] = {(r, c): fr(d["initial"][r][c]) for r in range(rows) for c in range(d["columns"])}
             self.peak[name] = {k: abs(float(v)) for k, v in self.ledger[name].items()}
             self.touched[name] = set()
+        # a caller may go on using the array it passed as initial_volumes: the labware must not alias it
+        from ..world import CALLER_ARRAYS
+
+        for name, lw in eng.world.lw.items():
+            arr = CALLER_ARRAYS.get(id(lw))
+            if arr is not None:
+                arr += 7.25
+                self.ctx.count("caller_array_modified_after_construction")
         self.compare(eng, None, "initial_state_as_described")
 
     def before(self, eng, op):
